@@ -136,7 +136,12 @@ def gen_name_case(rng, bad_vars, bad_tokens):
     lines = ['%s = 0.5*%s + 1.0' % (good[0], good[0])]
     if kind == 'var':
         nm = rng.choice(bad_vars)
-        lines.insert(rng.randint(0, 1), '%s = %s' % (nm, rng.choice(['2.0', 'x + 1.0', '0.5*y'])))
+        # as an ordinary, a lagged (nm = x(k-1)) or an exogenous variable
+        rhs = rng.choice(['2.0', 'x + 1.0', '0.5*y', 'x(k-1)', 'x(k-1)', 'EXO'])
+        if rhs == 'EXO':
+            lines += ['exogenous', '%s = %s' % (nm, rng.choice(['[1.0, 2.0, 3.0]', '4.0']))]
+            return {'kind': kind, 'text': '\n'.join(['MaxTime = 1'] + lines)}
+        lines.insert(rng.randint(0, 1), '%s = %s' % (nm, rhs))
     elif kind == 'token':
         tok = rng.choice(bad_tokens)
         lines.insert(rng.randint(0, 1), 'y = 2.0*%s + x' % tok)
@@ -218,9 +223,11 @@ def oracle_all_names():
     fails = []
     for nm in sorted(set(bad_vars)):
         fails.extend(oracle_names({'kind': 'var', 'text': 'x = 0.5*x + 1.0\n%s = 2.0' % nm}))
+        fails.extend(oracle_names({'kind': 'var', 'text': 'x = 0.5*x + 1.0\n%s = x(k-1)' % nm}))
+        fails.extend(oracle_names({'kind': 'var', 'text': 'x = 0.5*x + 1.0\nexogenous\n%s = 2.0' % nm}))
     for tok in sorted(set(bad_tokens)):
         fails.extend(oracle_names({'kind': 'token', 'text': 'x = 0.5*x + 1.0\ny = 2.0*%s + x' % tok}))
-    return fails, len(set(bad_vars)) + len(set(bad_tokens))
+    return fails, 3 * len(set(bad_vars)) + len(set(bad_tokens))
 
 
 # ---------------------------------------------------------------- ill-formed declarations
